@@ -70,6 +70,13 @@ def scanLine (line : Str) : LineKind :=
       | none => .bad
       | some c => .asm label mn ops c
 
+/-- the line from the start of the `operands` group of ASM_LINE_REGEX (greedy parse: label, blanks, mnemonic, blanks) -/
+def operandsTail (line : Str) : Str :=
+  (((line.dropWhile isLabelCh).dropWhile isSpace).dropWhile isWord).dropWhile isSpace
+
+/-- `str.rstrip()` -/
+def rstrip (s : Str) : Str := (s.reverse.dropWhile isSpace).reverse
+
 def findRow (mn : Str) : Option InstrRow := Gen.instructions.find? (fun r => r.mnemonic.toList == mn)
 
 /-- index of the first occurrence of `c` at or after position 1 (`str.find(c, 1)`), -1 as `none` -/
@@ -89,14 +96,15 @@ def parseLine (line : Str) : Outcome (Option Stmt) :=
     | none => .diag                                          -- invalid mnemonic
     | some row =>
       if row.isStringDefine then
-        let oo := if comment.isEmpty then ops else ops ++ [' '] ++ strip comment
+        -- the string is taken from the line as it was written (fix d74c37d): `line[data.start("operands"):].rstrip()`
+        let oo := rstrip (operandsTail line)
         match oo with
         | [] => .diag
         | c :: _ =>
           let endLoc : Nat := match findFrom1 c oo with | some i => i + 1 | none => 0     -- ending_location + 1
           match createOperand (strip (oo.take endLoc)) row with
           | .ok o => .ok (some { label := label, mnemonic := mn, row := row, operand := o, origText := o.text,
-                                 comment := strip (oo.drop (endLoc + 1)) })
+                                 comment := strip ((strip (oo.drop endLoc)).dropWhile (· == ';')) })
           | .error _ => .diag
       else
         match createOperand ops row with
@@ -192,7 +200,7 @@ def settle (s : Stmt) (extra hint : Nat) (c : Nat) : Option Stmt :=
 /-- a label multiplied or divided, or combined with anything but a number (another label): the 16-bit form is taken at once -/
 def exprForces (v : Value) : Bool :=
   match v with
-  | .expr l r op _ true => !(op == '+' || op == '-') || !((if l.isAddress then r else l).isNumeric)
+  | .expr l r op _ true => !(op == '+' || op == '-') || !((if l.isAddress then r else l).isNumeric) || (op == '-' && r.isAddress)
   | _ => false
 
 /-- magnitude of the constant of `label +- constant` (widens both distance estimates) -/
@@ -459,6 +467,28 @@ def finalSymTab (ss : List Stmt) : SymTab → Outcome SymTab
        | v => .ok ((k, v) :: r))
     | o => o
 
+/-- the pass over the symbol table before the addresses are filled in (fixes 0f280be, d7356d4): an EQU defined by an
+expression is replaced by its value — an expression of constants by `resolve`, a label expression by
+`calculate_address_offset` on the final addresses; one that cannot be evaluated is a TranslationError. Every entry is
+evaluated against the table as it was (`t`), the results are stored afterwards. -/
+def evalSyms (ss : List Stmt) (t : SymTab) : SymTab → Outcome SymTab
+  | [] => .ok []
+  | (k, v) :: rest =>
+    let cur : Outcome Value :=
+      if v.isExpression || v.isAddrExpr then
+        match v.resolve t with
+        | .error _ => .diag
+        | .ok r =>
+          match (if r.isAddrExpr then addrOffset ss r else .ok r) with
+          | .ok r' => .ok (if r'.isNumeric then r' else v)
+          | o => o
+      else .ok v
+    match cur with
+    | .ok v' => (match evalSyms ss t rest with | .ok r => .ok ((k, v') :: r) | o => o)
+    | .diag => .diag
+    | .internal => .internal
+    | .diverged => .diverged
+
 /-- `Program.process(lines)` up to and including the origin/name scan -/
 def assemble (fs : Files) (lines : List Str) : Outcome Assembly :=
   match parseLines lines with
@@ -480,11 +510,16 @@ def assemble (fs : Files) (lines : List Str) : Outcome Assembly :=
               | .ok ss4 =>
                 match fixAll ss4 0 ss4 with
                 | .ok ss5 =>
-                  match finalSymTab ss5 t with
-                  | .ok t' =>
-                    let origin := ss5.foldl (fun o s => if s.row.isOrigin then s.pkg.address else o) Value.none
-                    let name := ss5.foldl (fun o s => if s.row.isName then some s.operand.text else o) none
-                    .ok { stmts := ss5, symtab := t', origin := origin, name := name }
+                  match evalSyms ss5 t t with
+                  | .ok t1 =>
+                    match finalSymTab ss5 t1 with
+                    | .ok t' =>
+                      let origin := ss5.foldl (fun o s => if s.row.isOrigin then s.pkg.address else o) Value.none
+                      let name := ss5.foldl (fun o s => if s.row.isName then some s.operand.text else o) none
+                      .ok { stmts := ss5, symtab := t', origin := origin, name := name }
+                    | .diag => .diag
+                    | .internal => .internal
+                    | .diverged => .diverged
                   | .diag => .diag
                   | .internal => .internal
                   | .diverged => .diverged
